@@ -319,6 +319,7 @@ def run(idx: ProgramIndex, rep: Report, tier: str):
     exact_test_prior(idx, rep)
     grid_product_structure(idx, rep)
     wrappers_and_member_terms(idx, rep)
+    flat_index_strides(idx, rep)
 
 
 # ---- C09-5: one enumeration order of the grid points for every producer and consumer ---------------------------------------
@@ -839,3 +840,35 @@ def wrappers_and_member_terms(idx: ProgramIndex, rep: Report):
                 "the wrapper deals with the added loss terms of its member" if handles else
                 "`%s` multiplies the covariance of %s, but an added loss term registered by that member (%s: the trace term -1/(2 s2) tr(K - Q)) reaches the objective without the factor: Kronecker multitask SGPR (MultitaskKernel(InducingPointKernel), the library's own example) optimises -34.386 where the Titsias bound is -42.440 (= the bound with B removed from the trace term, to 1e-14)" % (" ".join(mult[1].split())[:60], mult[0], ", ".join(c.name for c in registers)), {})
     rep.floor("C09-10", "kernels that multiply a member's covariance", n, 2)
+
+
+# ---- C09-11 --------------------------------------------------------------------------------------------------------
+def flat_index_strides(idx: ProgramIndex, rep: Report):
+    """Interpolation.interpolate turns the per-dimension grid indices into one index of the flattened grid (last dimension fastest): the
+    index of dimension i is weighted by the product of the sizes of the dimensions AFTER i.  A power of the current dimension's own size,
+    `n_i ** (d - i - 1)`, is the same number only when all dimensions have the same size."""
+    rep.rule("C09-11", "the stride of grid dimension i in the flattened interpolation index is the product of the sizes of the later dimensions (computed from the list of sizes), not a power of one dimension's size")
+    I = idx.find_class("Interpolation")
+    fi = idx.method(I, "interpolate", own=True)
+    # the coefficient that multiplies the per-dimension indices before they are accumulated
+    coeffs = []
+    for c in ast.walk(fi.node):
+        if isinstance(c, ast.Call) and isinstance(c.func, ast.Attribute) and c.func.attr in ("mul", "mul_") and c.args and isinstance(c.args[0], ast.Name) and "ind" in src(c.func.value):
+            coeffs.append(c.args[0].id)
+    coeffs = sorted(set(coeffs))
+    if not coeffs:
+        raise AnalysisError("C09-11: Interpolation.interpolate no longer scales the per-dimension indices by a stride (anchor vanished)")
+    n = 0
+    for nm in coeffs:
+        defs = [a.value for a in ast.walk(fi.node) if isinstance(a, ast.Assign) and any(isinstance(t, ast.Name) and t.id == nm for t in a.targets)]
+        n += 1
+        probs = []
+        for d in defs:
+            later = any(isinstance(x, ast.Subscript) and isinstance(x.slice, ast.Slice) and x.slice.lower is not None and x.slice.upper is None for x in ast.walk(d))
+            power = any(isinstance(x, ast.BinOp) and isinstance(x.op, ast.Pow) for x in ast.walk(d)) or any(isinstance(x, ast.Call) and (chain(x.func) or "").split(".")[-1] == "pow" for x in ast.walk(d))
+            if power or not later:
+                probs.append("`%s = %s`" % (nm, " ".join(src(d).split())[:60]))
+        rep.add("C09-11", "%s:Interpolation.interpolate[stride of a grid dimension]" % I.module.name, fi.where, not probs,
+                "the stride is computed from the sizes of the later dimensions" if not probs else
+                "%s is not the product of the sizes of the later grid dimensions: for a grid with unequal sizes per dimension ([10, 16]) the flat indices address other grid nodes (or leave the grid): the interpolated kernel is 0.8 from the base kernel instead of 2e-3 and is no longer exact at the nodes" % "; ".join(probs), {})
+    rep.floor("C09-11", "strides of the flattened interpolation index", n, 1)
